@@ -47,7 +47,20 @@ Rep(s, n) == IF n = 0 THEN <<>>
              ELSE s \o Rep(s, n - 1)
 RepSep(s, sep, n) == IF n = 0 THEN <<>> ELSE s \o Rep(sep \o s, n - 1)
 
-FamilyNames == {"parens", "preds", "steps", "dsteps", "unions", "minus", "deeppred", "selfpred", "args", "parenpath", "ors", "filters", "updown", "deepdsteps", "updownaxes"}
+AllAxes == <<"ancestor", "ancestor-or-self", "attribute", "child", "descendant", "descendant-or-self", "following",
+             "following-sibling", "namespace", "parent", "preceding", "preceding-sibling", "self">>
+\* contexts in PrologDoc: the document, the leading comment, the PI after the DOCTYPE, the root element, an inner element,
+\* an attribute, a text node, the trailing comment
+PrologCtxs == << Cp("/"),
+                 Cp("/") \o Cp("comment") \o Cp("(") \o Cp(")") \o Cp("[") \o Cp("1") \o Cp("]"),
+                 Cp("/") \o Cp("processing-instruction") \o Cp("(") \o Cp(")") \o Cp("[") \o Cp("1") \o Cp("]"),
+                 Cp("/") \o Cp("r"), Cp("//") \o Cp("x"), Cp("//") \o Cp("@") \o Cp("x"),
+                 Cp("/") \o Cp("r") \o Cp("/") \o Cp("text") \o Cp("(") \o Cp(")"),
+                 Cp("/") \o Cp("comment") \o Cp("(") \o Cp(")") \o Cp("[") \o Cp("2") \o Cp("]") >>
+PrologMembers == Len(AllAxes) * Len(PrologCtxs)
+\* <!--c--><!DOCTYPE r [<!ATTLIST r x CDATA #IMPLIED>]><?p q?><r x="v">t<x/>u</r><!--d--><?e f?>
+PrologDoc == <<60, 33, 45, 45, 99, 45, 45, 62, 60, 33, 68, 79, 67, 84, 89, 80, 69, 32, 114, 32, 91, 60, 33, 65, 84, 84, 76, 73, 83, 84, 32, 114, 32, 120, 32, 67, 68, 65, 84, 65, 32, 35, 73, 77, 80, 76, 73, 69, 68, 62, 93, 62, 60, 63, 112, 32, 113, 63, 62, 60, 114, 32, 120, 61, 34, 118, 34, 62, 116, 60, 120, 47, 62, 117, 60, 47, 114, 62, 60, 33, 45, 45, 100, 45, 45, 62, 60, 63, 101, 32, 102, 63, 62>>
+FamilyNames == {"parens", "preds", "steps", "dsteps", "unions", "minus", "deeppred", "selfpred", "args", "parenpath", "ors", "filters", "updown", "deepdsteps", "updownaxes", "prologaxes"}
 Member(fam, n) ==
   CASE fam = "parens"    -> Rep(Cp("("), n) \o Cp("1") \o Rep(Cp(")"), n)                   \* ((((1))))
     [] fam = "parenpath" -> Rep(Cp("("), n) \o Cp("//") \o Cp("b") \o Rep(Cp(")"), n)       \* ((((//b))))
@@ -66,6 +79,10 @@ Member(fam, n) ==
     [] fam = "updownaxes" -> Cp("//") \o Cp("b") \o Rep(Cp("/") \o Cp("ancestor-or-self") \o Cp("::") \o Cp("*") \o Cp("/") \o Cp("descendant-or-self") \o Cp("::") \o Cp("*"), n)
     \* on a DEEP document (DeepDoc: a chain of DeepDocDepth elements) every //* reaches each node along many routes
     [] fam = "deepdsteps" -> Rep(Cp("//") \o Cp("*"), n)
+    \* every axis from every kind of node of a document with a prolog, a DOCTYPE and an epilog (member n = context x axis)
+    [] fam = "prologaxes" -> LET c == PrologCtxs[((n - 1) \div Len(AllAxes)) + 1]
+                                 a == AllAxes[((n - 1) % Len(AllAxes)) + 1]
+                             IN  c \o (IF c = Cp("/") THEN <<>> ELSE Cp("/")) \o Cp(a) \o Cp("::") \o Cp("node") \o Cp("(") \o Cp(")")
     [] fam = "filters"   -> Rep(Cp("("), n) \o Cp("//") \o Cp("b") \o Rep(Cp(")") \o Cp("[") \o Cp("1") \o Cp("]"), n)  \* (((//b)[1])[1])
 
 DeepDocDepth == 24
